@@ -421,7 +421,11 @@ def geometry_preserved(U, rep, tier, rule='R13.4', nonunit=True):
   from fractions import Fraction as _F
   special = [(0, 1, 0, 0), (0, 0, 1, 0), (0, _F(3, 5), _F(4, 5), 0), (1, 0, 0, 0), (0, 0, 0, 1), (_F(3, 5), _F(4, 5), 0, 0), (0, 1, 0, 0)]
   special_pos = [(_F(1, 4), _F(-1, 2), _F(1, 4)), (_F(1, 10), _F(-1, 10), 0), (0, 2, -2), (1, 0, 0), (0, 0, _F(3, 10)), (_F(-1, 5), 0, _F(1, 5))]
-  runs = [(v, True, None) for v in kinds] + ([(('both', 'both'), False, None)] if nonunit else []) + [(('both', 'both'), True, 'pos')] + [(('quat', 'both'), True, special), (('both', 'quat'), True, special[1:])]
+  # round numbers, translations only: the composed offsets are exact multiples of 10 / 100 (what a write-back that tidies
+  # the spelled numbers -- strips "insignificant" characters, changes the format -- has to survive)
+  round_pos = [(10, 0, -20), (0, 0, 0), (5, 5, 10), (5, -5, 10), (100, 0, 0), (-10, 20, 0), (90, -20, 30)]
+  runs = [(v, True, None) for v in kinds] + ([(('both', 'both'), False, None)] if nonunit else []) + [(('both', 'both'), True, 'pos')] + [
+      (('pos', 'pos'), True, 'pos10')] + [(('quat', 'both'), True, special), (('both', 'quat'), True, special[1:])]
   for variant, unit, cq in runs:
     bad = None
     for t in range(40):
@@ -438,7 +442,7 @@ def geometry_preserved(U, rep, tier, rule='R13.4', nonunit=True):
       avn.FIELD['sqrt_axiom'] = True
       try:
         I = new_interp(U.repo)
-        root = _doc(variant, unit, None if cq == 'pos' else cq, special_pos if cq == 'pos' else None)
+        root = _doc(variant, unit, None if cq in ('pos', 'pos10') else cq, special_pos if cq == 'pos' else round_pos if cq == 'pos10' else None)
         # reference world-relative poses BEFORE fusing: {leaf name: (anchor name, chain of frames)}
         want = {}
 
@@ -529,6 +533,11 @@ def geometry_preserved(U, rep, tier, rule='R13.4', nonunit=True):
       rep.check(bad is None, rule, 'fusing preserves geometry [exact special offsets: components cancelling to 0, zero components]',
                 'after mjcf._fuse_bodies %s (exact special positions such as "0.25 -0.5 0.25", "0.1 -0.1 0")' % bad, where=f.where(),
                 construct='pos attributes whose components sum to 0 or vanish singly; quaternions symbolic unit')
+      continue
+    if cq == 'pos10':
+      rep.check(bad is None, rule, 'fusing preserves geometry [round-number offsets: composed positions are exact multiples of 10]',
+                'after mjcf._fuse_bodies %s (translations such as "10 0 -20", "100 0 0": the written-back numbers must spell the '
+                'composed values)' % bad, where=f.where(), construct='pos-only jointless bodies with round-number offsets')
       continue
     if cq is not None:
       rep.check(bad is None, rule, 'fusing preserves geometry [exact half-turn / 3-4-5 orientations, bodies with %s / nested %s]' % variant,
